@@ -502,9 +502,14 @@ func main() {
 			"up", "retry", "retry", "settle"})
 		// directed: a sync cut short (B holds the pushed head but nothing behind it), then the retry
 		cases = append(cases, []string{"case 3 rep", "start", `create d1 {"name": "v1", "n": 1}`, "slow", `update d1 {"n": 2, "name": "w1"}`, `create d2 {"name": "v2", "n": 2}`, "fast", "retry", "retry", "settle"})
+		// directed: documents written under a schema version that is no longer the active one when they are retried
+		cases = append(cases, []string{"case 4 rep", "start", "patch email", "down", `create d1 {"name": "v1", "n": 1}`, `create d2 {"name": "v2", "n": 2, "email": "e2"}`, "up", "patch nick",
+			"retry", "retry", "settle"})
+		cases = append(cases, []string{"case 5 rep", "start", "slow", "patch email", `create d1 {"name": "v1", "n": 7}`, `create d2 {"name": "v2", "n": 4}`, "fast", "patch nick",
+			`update d1 {"email": "e8"}`, "retry", "retry", "settle"})
 		for i := 0; i < n; i++ {
 			cr, _ := r.Fork()
-			cases = append(cases, genCase(cr, uint64(i+4)))
+			cases = append(cases, genCase(cr, uint64(i+6)))
 		}
 	}
 	for _, c := range cases {
